@@ -103,7 +103,7 @@ def run(ctx):
 
     # ---- decoder flip
     fl = [a for a in dec.find(domain="comb", target="codeword_c") if a.v != "codeword"]
-    ok = len(fl) == 1 and fl[0].v == "codeword ^ 1 << i - 1" and B.equivalent(fl[0].eff(), B.A("syndrome == i"))
+    ok = len(fl) == 1 and fl[0].v == "codeword ^ 1 << i - 1" and q.EQ(fl[0], B.A("syndrome == i"))
     ctx.ob("H1", F, "ECCDecoder", "syndrome i flips bit i - 1", ok, "" if ok else f"{[(a.v, a.gtext()) for a in fl]}", fl[0].line if fl else 0)
     ok = len(fl) == 1 and any(it == "range(1, 2 ** len(syndrome))" for _, it in fl[0].loops)
     ctx.ob("H1", F, "ECCDecoder", "flip cases for every syndrome 1 .. 2**m - 1", ok, "" if ok else f"{fl[0].loops if fl else '?'}")
@@ -126,13 +126,13 @@ def run(ctx):
     # ---- H3
     sy = [a for a in dec.find(domain="comb") if a.t in ("syndrome", "syndrome[i]")]
     ov = [a for a in sy if a.t == "syndrome" and a.v == "0"]
-    ok = len(ov) == 1 and B.equivalent(ov[0].eff(), B.Not(B.A("self.enable"))) and \
+    ok = len(ov) == 1 and q.EQ(ov[0], B.Not(B.A("self.enable"))) and \
         dec.assigns.index(ov[0]) == max(dec.assigns.index(a) for a in sy)
     ctx.ob("H3", F, "ECCDecoder", "~enable => syndrome = 0 is the last driver of the syndrome", ok,
            "" if ok else f"{[(a.t, a.v, a.gtext()) for a in sy]}: with checking disabled the data would still be 'corrected'", ov[0].line if ov else 0)
     for t, want in (("self.ded", "(syndrome != 0) & ~parity"), ("self.sec", "(syndrome != 0) & parity")):
         d = dec.find(domain="comb", target=t)
-        ok = len(d) == 1 and d[0].v == "1" and B.equivalent(d[0].eff(), B.from_expr(want))
+        ok = len(d) == 1 and d[0].v == "1" and q.EQ(d[0], B.from_expr(want))
         ctx.ob("H3", F, "ECCDecoder", f"{t} = {want}", ok, "" if ok else f"{[(a.v, a.gtext()) for a in d]}", d[0].line if d else 0)
     # flip case must read the (possibly zeroed) syndrome, i.e. the Case comes after the override
     ok = bool(fl) and bool(ov) and dec.assigns.index(fl[0]) > dec.assigns.index(ov[0])
